@@ -39,18 +39,22 @@ var paramNames = []string{"a", "b", "x", "y", "z", "c", "d", "nope"}
 
 type request struct{ method, path string }
 
+// escapingPanic is the handler's own panic that is let through to the caller of ServeHTTP
+const escapingPanic = "escaping handler panic"
+
 var requests = []request{
 	{"GET", "/u/1/2"},
 	{"GET", "/a/7"},
 	{"GET", "/s"},
-	{"GET", "/v/8/9"},    // walks through two parameter nodes, then no method node: no-route
-	{"GET", "/u/1"},      // partial walk, no route
-	{"GET", "/nope"},     // no route at once
-	{"GET", "/w/x/y"},    // trailing *
-	{"GET", "/b/1/2/3"},  // matches only once the late route is registered
-	{"GET", "/u/boom/1"}, // handler panics (recovered by the relay)
-	{"GET", "/u/9/"},     // trailing slash: the second parameter is the empty string
-	{"GET", "/w/"},       // trailing slash on the * route: empty rest
+	{"GET", "/v/8/9"},      // walks through two parameter nodes, then no method node: no-route
+	{"GET", "/u/1"},        // partial walk, no route
+	{"GET", "/nope"},       // no route at once
+	{"GET", "/w/x/y"},      // trailing *
+	{"GET", "/b/1/2/3"},    // matches only once the late route is registered
+	{"GET", "/u/boom/1"},   // handler panics (recovered by the relay)
+	{"GET", "/u/escape/1"}, // handler writes a status and panics; nobody below ServeHTTP recovers (net/http would)
+	{"GET", "/u/9/"},       // trailing slash: the second parameter is the empty string
+	{"GET", "/w/"},         // trailing slash on the * route: empty rest
 }
 
 // one observation made inside a handler
@@ -107,7 +111,11 @@ func newWorld(late bool) *world {
 	w := &world{mux: httpd.NewMux()}
 	w.mux.HandleRelay(func(s *httpd.Store) {
 		w.observe("relay", s)
-		defer func() { recover() }()
+		defer func() {
+			if r := recover(); r == escapingPanic {
+				panic(r)
+			}
+		}()
 		s.I.HandlerFunc(s)
 	})
 	w.mux.HandleNoRoute(func(s *httpd.Store) { w.observe("no-route", s) })
@@ -126,6 +134,10 @@ func (w *world) register(r route) {
 		w.observe("route "+r.method+" "+r.pattern, s)
 		if s.RouteParam("a") == "boom" {
 			panic("handler panic")
+		}
+		if s.RouteParam("a") == "escape" {
+			s.W.WriteHeader(503)
+			panic(escapingPanic)
 		}
 	})
 	if r == lateRoute {
@@ -183,7 +195,7 @@ func counterPart(id string) string {
 
 // compare returns "" when the observations of a request equal those on a fresh Mux.
 func compare(q request, late bool, log []seen, escaped any) string {
-	if escaped != nil {
+	if escaped != nil && !(escaped == escapingPanic && strings.HasPrefix(q.path, "/u/escape/")) {
 		return fmt.Sprintf("C05: ServeHTTP(%s %s) panicked: %v", q.method, q.path, escaped)
 	}
 	ref := reference(q, late)
